@@ -58,6 +58,7 @@ class AccessTokenHelper(TokenEndpointHelper):
         if resource_indicators_config is not None:
             if "policy" not in resource_indicators_config:
                 policy = {"policy": {"function": validate_resource_indicators_policy}}
+                resource_indicators_config = dict(resource_indicators_config)
                 resource_indicators_config.update(policy)
 
             req = self._enforce_resource_indicators_policy(req, resource_indicators_config)
